@@ -866,4 +866,30 @@ theorem cancel_never_raises (size backlog : Option Int) (prog : List Op) (g : Na
 example : Ev.cancelled 1 ∈ (run (init (some 1) none) demo).2 ∧ Ev.cancelNoop 0 ∈ (run (init (some 1) none) demo).2 := by
   rw [demo_run]; decide
 
+/-- Multiplicities (the objects need not be distinct: the same object may be put again and
+    again).  At the end of any run, every object has been delivered exactly as many times as it
+    was accepted, minus the copies still queued … -/
+theorem delivered_count (size backlog : Option Int) (prog : List Op) (v : Nat) :
+    (accepted (run (init size backlog) prog).2).count v =
+      ((deliveries (run (init size backlog) prog).2).map Prod.snd).count v +
+        (run (init size backlog) prog).1.pending.count v := by
+  rw [accepted_eq_delivered_then_pending, List.count_append]
+
+/-- … and at no point of the run has an object been delivered more often than it was put. -/
+theorem delivered_count_le (size backlog : Option Int) (prog : List Op) (tr' : List Ev)
+    (h : tr' <+: (run (init size backlog) prog).2) (v : Nat) :
+    ((deliveries tr').map Prod.snd).count v ≤ (accepted tr').count v := by
+  obtain ⟨qi, _, hi⟩ := prefix_reached (run_steps _ prog) h
+  rw [hi.acc, List.count_append]
+  omega
+
+/-- non-vacuity: object 7 put three times (once refused: size 2), delivered twice, to two gets -/
+example : (run (init (some 2) none) [.put 7, .put 7, .put 7, .get [] [], .get [] [], .get [] []]).2 =
+      [.putQueued 7, .putQueued 7, .putOverflow 7, .getImmediate 0 7, .getImmediate 1 7, .getWaiting 2] ∧
+    (accepted [Ev.putQueued 7, .putQueued 7, .putOverflow 7, .getImmediate 0 7, .getImmediate 1 7, .getWaiting 2]).count 7 = 2 ∧
+    ((deliveries [Ev.putQueued 7, .putQueued 7, .putOverflow 7, .getImmediate 0 7, .getImmediate 1 7,
+      .getWaiting 2]).map Prod.snd).count 7 = 2 := by
+  refine ⟨?_, by decide, by decide⟩
+  simp [run, step, stepPut, stepGet, below, init]
+
 end TwistedProps.C07
